@@ -872,20 +872,36 @@ mod os {
                 posix::chdir(cwd)?;
             }
 
+            // Once a stream is in place, the descriptor it was copied from must
+            // not reach the new program as well: when the file is shared (the
+            // stderr of a pipeline, an RcFile) dropping our reference does not
+            // close it, and an extra copy of a pipe's write end would keep
+            // the reader from seeing end-of-file after the program closes the
+            // stream.  The standard descriptors themselves are left alone.
+            fn close_on_exec(f: &File) -> io::Result<()> {
+                if f.as_raw_fd() > 2 {
+                    set_inheritable(f, false)?;
+                }
+                Ok(())
+            }
+
             let (stdin, stdout, stderr) = child_ends;
             if let Some(stdin) = stdin {
                 if stdin.as_raw_fd() != 0 {
                     posix::dup2(stdin.as_raw_fd(), 0)?;
+                    close_on_exec(&stdin)?;
                 }
             }
             if let Some(stdout) = stdout {
                 if stdout.as_raw_fd() != 1 {
                     posix::dup2(stdout.as_raw_fd(), 1)?;
+                    close_on_exec(&stdout)?;
                 }
             }
             if let Some(stderr) = stderr {
                 if stderr.as_raw_fd() != 2 {
                     posix::dup2(stderr.as_raw_fd(), 2)?;
+                    close_on_exec(&stderr)?;
                 }
             }
             posix::reset_sigpipe()?;
